@@ -148,6 +148,9 @@ def build_and_run(job):
         kw.update(max_iter=400, max_cg_iter=10, rho=[1.0, 0.5][variant % 2])
     if variant >= 2:
         kw.update(x=(np.array([[0.3], [-0.7]]) + (0.1j if cplx else 0)).astype(y.dtype))
+    if job.get("pbar"):
+        # progress bar on: App.run takes its other path and _summarize evaluates the documented objective after every update
+        kw.update(show_pbar=True, leave_pbar=False)
     if job.get("x32"):
         # warm start whose dtype differs from the data's (float32 / complex64): the solution must still be written into it
         kw.update(x=(np.array([[0.3], [-0.7]]) + (0.1j if cplx else 0)).astype(np.complex64 if cplx else np.float32))
@@ -157,7 +160,14 @@ def build_and_run(job):
         warnings.simplefilter("ignore")
         try:
             ap = app.LinearLeastSquares(Aop, y, proxg=pg, lamda=lam, G=G, z=zz, solver=solver, **kw)
-            x = ap.run()
+            if job.get("pbar"):
+                import contextlib
+                import os
+
+                with open(os.devnull, "w") as dn, contextlib.redirect_stderr(dn):   # the bar itself is of no interest
+                    x = ap.run()
+            else:
+                x = ap.run()
         except Exception as e:
             res["raised"] = "%s: %s" % (type(e).__name__, str(e)[:200])
             return res
@@ -210,12 +220,13 @@ def run(ctx):
                 jobs.append({"opt": o, "variant": v + (2 if (v % 2 and ctx.seed % 2) else 0) * 0, "cplx": cplx, "seed": ctx.seed + v, "phase": st["phase"]})
         if st["phase"] == "ready":
             jobs.append({"opt": o, "variant": 0, "cplx": o["proxg"] in ("None", "l2") and (len(jobs) % 2 == 0), "seed": ctx.seed, "phase": st["phase"], "x32": True})
+            jobs.append({"opt": o, "variant": 1, "cplx": False, "seed": ctx.seed + 1, "phase": st["phase"], "pbar": True})
     with mp.get_context("fork").Pool(16) as pool:
         results = pool.map(build_and_run, jobs, chunksize=4)
     by_problem = {}
     for job, res in zip(jobs, results):
         o = job["opt"]
-        key = {"solver": o["solver"], "lamda": o["lamda"], "z": o["z"], "proxg": o["proxg"], "G": o["G"], "variant": job["variant"], "complex": job["cplx"], "x32": bool(job.get("x32"))}
+        key = {"solver": o["solver"], "lamda": o["lamda"], "z": o["z"], "proxg": o["proxg"], "G": o["G"], "variant": job["variant"], "complex": job["cplx"], "x32": bool(job.get("x32")), "pbar": bool(job.get("pbar"))}
         r.traces += 1
         r.evaluations += 1
         r.nontrivial += 1
